@@ -131,7 +131,7 @@ func AcceptedLength(regexString string) (AcceptedLengths, error) {
 			case syntax.InstAlt, syntax.InstAltMatch:
 				for _, s := range seen {
 					if s == pos {
-						cache[entry] = AcceptedLengths{math.MaxUint64, math.MaxUint64}
+						// not cached: only valid while pos is on the evaluation stack
 						return AcceptedLengths{math.MaxUint64, math.MaxUint64}, nil
 					}
 				}
